@@ -42,6 +42,8 @@ def run(prog, rep, tier):
     r4 = rep.rule("R17.4", "every attribute attr_to_api can build has an explicit arm in attr_from_api")
     check_arms(prog, r4)
     check_sibling_messages(prog, r4)
+    r5 = rep.rule("R17.5", "fixed-size byte arrays (ESI, MAC, extended community, route target) are converted whole")
+    check_array_coverage(prog, r5)
 
 
 def check_ctor_classes(prog, r):
@@ -255,3 +257,79 @@ def check_arms(prog, r):
             r.ok("Attr::%s: produced by attr_to_api and accepted by attr_from_api" % v)
         else:
             r.fail(fv.name, "no-arm:" + v, "attr_to_api can produce Attr::%s but attr_from_api has no arm for it: a listed path cannot be re-added with the same content" % v, fv.loc())
+
+
+# ---------------------------------------------------------------------------------------------- R17.5
+def _const_range(fv, rend, o, n):
+    """Index set denoted by a constant Range / RangeFrom / RangeTo / RangeFull operand over an array of length n (None if not constant)."""
+    e = rend.operand(o, 8)
+    while isinstance(e, tuple) and e and e[0] in ("ref", "deref"):
+        e = e[1]
+    if not (isinstance(e, tuple) and e and e[0] == "agg"):
+        return None
+    vals = [a[1] if (isinstance(a, tuple) and a and a[0] == "const" and isinstance(a[1], int)) else None for a in e[3]]
+    if any(v is None for v in vals):
+        return None
+    v = e[2]
+    if v == "Range" and len(vals) == 2:
+        return set(range(vals[0], min(vals[1], n)))
+    if v == "RangeFrom" and len(vals) == 1:
+        return set(range(vals[0], n))
+    if v == "RangeTo" and len(vals) == 1:
+        return set(range(0, min(vals[0], n)))
+    if v == "RangeInclusive":
+        return None
+    if v == "RangeFull":
+        return set(range(n))
+    return None
+
+
+def check_array_coverage(prog, r):
+    """A fixed-size byte array ([u8; N]: ESI, MAC, extended community, route target) that a convert.rs function takes apart or
+    assembles with constant indices / constant sub-ranges must be covered whole: a byte that is never read is lost on display,
+    a byte never written comes back as zero (round trip not identical)."""
+    n_sites = 0
+    for k in crate_fns(prog, "rustybgpd"):
+        nm = prog.ix[k]["name"]
+        if not nm.startswith("rustybgpd::convert::") or "::tests::" in nm:
+            continue
+        fv = view(prog, k)
+        rend = Renderer(fv, depth=8)
+        acc = {}       # (base text, N) -> [set of indices, all-constant?, first block]
+        for bi in sorted(fv.live):
+            t = fv.blocks[bi]["t"]
+            if t["t"] == "call" and (t["f"].get("name") or "").endswith(("Index::index", "IndexMut::index_mut")):
+                m = re.match(r"\[\[u8; (\d+)_usize\], (.*)\]$", t["f"].get("ga", ""))
+                if not m:
+                    continue
+                n = int(m.group(1))
+                base = show(rend.operand(t["args"][0], 8)).lstrip("&*")
+                a = acc.setdefault((base, n), [set(), True, bi])
+                rg = _const_range(fv, rend, t["args"][1], n)
+                if rg is None:
+                    a[1] = False
+                else:
+                    a[0] |= rg
+            elif t["t"] == "assert" and t.get("kind") == "BoundsCheck" and "k" in t["ops"][0]:
+                n = t["ops"][0]["k"]["v"]
+                base = (t.get("sn") or "").split("[")[0].strip().lstrip("&*")
+                if not base or n > 32:
+                    continue
+                a = acc.setdefault((base, n), [set(), True, bi])
+                e = rend.operand(t["ops"][1], 8)
+                if e[0] == "const" and isinstance(e[1], int):
+                    a[0].add(e[1])
+                else:
+                    a[1] = False
+        for (base, n), (idx, allconst, bi) in sorted(acc.items()):
+            if not allconst or not idx:
+                continue           # driven by a loop variable / runtime length: not a constant layout
+            n_sites += 1
+            miss = sorted(set(range(n)) - idx)
+            if miss:
+                r.fail(nm, "array-bytes-unconverted:%s[%s]" % (base, ",".join(map(str, miss))),
+                       "%s takes the %d-byte array `%s` apart with constant indices but never touches byte(s) %s: that part of the value is lost "
+                       "in the conversion (round trip not identical)" % (short(nm), n, base, miss), fv.loc(bi))
+            else:
+                r.ok("%s: all %d bytes of `%s` are converted" % (short(nm), n, base))
+    r.floor("fixed-size byte arrays taken apart / assembled with constant indices in convert.rs", n_sites, 7)
